@@ -179,17 +179,26 @@ def run(ctx):
             failures.append(Failure("violation", "C04/score-from-reports", msg, {"note": "regenerated from the run seed"}))
             break
     # symmetry monitor on the four real oracles
-    npairs = ctx.n(24, 300)
-    for j in range(npairs):
+    npairs = ctx.n(36, 300)
+    import glob, json
+    corpus = [json.load(open(f))["cfg"] for f in sorted(glob.glob("/verif/corpus/C04/*.json"))]
+    stats["corpus_pairs"] = len(corpus)
+    for j in range(npairs + len(corpus)):
+        if j < len(corpus):
+            msg, ha = sym_pair(ctx, corpus[j])
+            stats["sym_pairs"] += 1
+            if msg:
+                failures.append(Failure("violation", "C04/direction-symmetry", "%s oracle: %s" % (corpus[j]["kind"], msg), {"cfg": corpus[j], "ops": ha["ops"]}))
+            continue
         cfg = lc.gen_config(rng)
         cfg["nsteps"] = rng.randint(15, 40)
         if j % 3 == 0:
             # the Bayesian model must see the same data either way, also while other trials are still running
             cfg.update(kind="bayes", W=rng.choice([2, 3]), max_trials=rng.choice([6, 7, 8]), nsteps=45, max_retries=0, max_consec=9)
-        elif j % 3 == 1:
-            cfg.update(kind="hyperband", W=rng.choice([2, 3, 4]), max_trials=None, max_epochs=rng.choice([4, 9]), factor=rng.choice([2, 3]), iterations=1, nsteps=rng.choice([60, 90]))
-            if rng.random() < 0.7:
-                cfg["score_range"] = rng.choice([(0, 1), (0, 2), (-1, 1)])     # ties among the candidates of a promotion: which of them continues must not depend on the direction
+        elif j % 3 == 1 or j % 6 == 2:
+            cfg.update(kind="hyperband", W=rng.choice([2, 3, 4]), max_trials=None, max_epochs=rng.choice([4, 9]), factor=rng.choice([2, 3]), iterations=1, nsteps=rng.choice([60, 90, 120]))
+            if rng.random() < 0.9:
+                cfg["score_range"] = rng.choice([(0, 1), (0, 1), (0, 2), (-1, 1)])     # ties among the candidates of a promotion: which of them continues must not depend on the direction
                 cfg["max_retries"] = 0
         if cfg["kind"] == "bayes" and j % 3 != 0:
             cfg["max_trials"] = rng.choice([4, 5, 6]); cfg["nsteps"] = 30
